@@ -27,6 +27,18 @@ IsEv(k) == l <= Len(Rec) /\ Rec[l].ev = k /\ l' = l + 1
 TInit == L!Init /\ l = 1 /\ addr = [k \in Keys |-> -1]
 TInv == IsEv("inv") /\ L!Call(Rec[l].t, KeyOf(Rec[l])) /\ UNCHANGED addr
 TConstruct == IsEv("construct") /\ arg[Rec[l].t] = KeyOf(Rec[l]) /\ L!Construct(Rec[l].t) /\ UNCHANGED addr
+(* The property does not say WHICH call constructs a key, only that each key is constructed once and before anybody obtains
+   it: an implementation may build other keys than the requested one inside a call (eager or batched initialisation - the
+   benign change C20-Q builds all 30 depths of a table at the first request).  Such a `construct` event, logged by a thread
+   whose pending call is for another key, is a complete initialisation of a key nobody has started yet; a second construction
+   of that key, by anybody, has no explanation afterwards. *)
+TConstructForeign == /\ IsEv("construct")
+                     /\ LET t == Rec[l].t
+                            k == KeyOf(Rec[l])
+                        IN /\ pc[t] # "idle" /\ arg[t] # k
+                           /\ once[k] = "inc" /\ built[k] = 0
+                           /\ built' = [built EXCEPT ![k] = 1] /\ once' = [once EXCEPT ![k] = "done"] /\ slot' = [slot EXCEPT ![k] = 1]
+                     /\ UNCHANGED <<pc, arg, mine, ret, calls, addr>>
 (* a response: the call returns a fully initialised object (probe through the returned reference agrees with
    the single-threaded values), without panicking, and every response for a key carries the same address *)
 TResp == /\ IsEv("resp")
@@ -66,7 +78,7 @@ Needed == IF l > Len(Rec) \/ Rec[l].ev = "reset" THEN {}
                           THEN {c \in Threads : pc[c] \in {"publish", "publish2", "complete"} /\ arg[c] = arg[te]} ELSE {})
 TSilent == /\ l <= Len(Rec) /\ UNCHANGED <<l, addr>>
            /\ \E t \in Needed : pc[t] \notin {"idle", "ret", "construct"} /\ TSilentOf(t)
-TNext == TInv \/ TConstruct \/ TResp \/ TReset \/ TSilent
+TNext == TInv \/ TConstruct \/ TConstructForeign \/ TResp \/ TReset \/ TSilent
 TSpec == TInit /\ [][TNext]_tvars
 (* remember the furthest event consumed (reported on rejection) *)
 Progress == IF l > TLCGet(1) THEN TLCSet(1, l) ELSE TRUE
